@@ -49,6 +49,13 @@ const header = `package main
 import "fmt"
 
 type MyInt int
+type Sink chan<- int
+type Sink2 Sink
+type Src <-chan int
+type Src2 Src
+type MySl []int
+type MyMap map[string]int
+type PS *S
 type S struct{ A int }
 type I interface{ M() }
 type TI struct{ B int }
